@@ -17,5 +17,6 @@ def check(ctx: Ctx) -> None:
         "functions are shown to depend on pitches only through `% 12`, so the enumeration is exhaustive.")
     ctx.assumptions += ["integer arguments", "Python's % on negative numbers (floor semantics) as specified by the language"]
     t = tables.check_tables(ctx)
+    tables.check_tables_immutable(ctx)
     tables.check_transpose_key(ctx)
     tables.check_circle(ctx, t)
